@@ -2,7 +2,7 @@
 C16 — the hypotheses under which the signature theorems of bign96 / g12s / dstu are stated, phrased for
 the abstract contexts `B96 G`, `G12 G`, `Dstu G F` of the executable models.
 
-Nothing here is an axiom: the structures are hypotheses of each theorem.  They say what the theory of
+Nothing here is assumed globally: the structures are hypotheses of each theorem.  They say what the theory of
 elliptic curves gives for the group of ALL points of the curve (no cofactor-1 assumption: only the base
 point is required to have prime order q) and what the octet encodings of field elements satisfy.
 They are shown satisfiable by small concrete instances in `ToySig.lean` (non-vacuity).
@@ -63,15 +63,5 @@ structure DLaws [AddCommGroup G] (C : Dstu G F) : Prop where
   enc_dec : ∀ x : F, C.f.ofNat (C.f.toNat x) = some x
   toNat_lt : ∀ x : F, C.f.toNat x < 2 ^ C.f.m
   m_pos : 0 < C.f.m
-
-/-! ### reference definitions -/
-
-/-- the acceptance condition of bign96Verify for the public key Q (a group element); the constant is
-2^103 (see `B96.s0Full`) -/
-def B96.specAccept [AddCommGroup G] (C : B96 G) (oid Hb sig : Bytes) (Q : G) : Prop :=
-  leNat (sig.drop 10) < C.q ∧
-  ∃ x y, C.xy (((leNat (sig.drop 10) + leNat Hb) % C.q) • C.base
-                + (leNat (sig.take 10) + 2 ^ 103) • Q) = some (x, y) ∧
-    B96.hash80 C (oid ++ natLE 24 x ++ Hb) = sig.take 10
 
 end Bee2V.C16
